@@ -1,0 +1,7 @@
+//go:build verif
+
+package corazawaf
+
+// VerifC01LowerRegexSource exposes lowerRegexSource (the case folding applied to the source text
+// of a regex key of a case-insensitive collection) to the C01 correspondence harness.
+func VerifC01LowerRegexSource(rx string) string { return lowerRegexSource(rx) }
